@@ -17,7 +17,7 @@ pub fn run(_args: &Args, rep: &mut Report) {
     t.insert("e", Entry::dir(1_600_000_004));
     let src = MemSource::new("r", t.clone());
     let t0 = std::time::Instant::now();
-    let snap = backup(&env, &src, "s1", 1_700_000_000, &BackupOptions::default()).expect("backup");
+    let snap = backup(&env, &src, "s1", 1_700_000_000, &vkit::rep::bopts()).expect("backup");
     println!("backup took {:?} tree {}", t0.elapsed(), snap.tree);
     let model = model_tree("r", &t);
     let t0 = std::time::Instant::now();
